@@ -799,10 +799,22 @@ def _eval_int(c, z, m, extra=()):
     raise Inconclusive(f"concretize: no numeral for {z} in the solver's model")
 
 
+def _check_patiently(c, *extra):
+    """one retry with a 4x budget (a loaded machine can push a small query over its budget)"""
+    old = c.timeout_ms
+    c.timeout_ms = old * 4
+    try:
+        return c.check(*extra)
+    finally:
+        c.timeout_ms = old
+
+
 def _next_candidate(c, z):
     """Deterministic candidate: the minimal feasible value of z under the current pc (by bisection-free
     search: ask for a model, then tighten downwards)."""
     r, m = c.check()
+    if r == "unknown":
+        r, m = _check_patiently(c)
     if r != "sat":
         if r == "unsat":
             raise PathAbort("infeasible")
@@ -812,6 +824,8 @@ def _next_candidate(c, z):
     steps = 0
     while True:
         r2, m2 = c.check(z < v)
+        if r2 == "unknown":
+            r2, m2 = _check_patiently(c, z < v)
         if r2 == "sat":
             v = _eval_int(c, z, m2, (z < v,))
             steps += 1
